@@ -33,7 +33,7 @@ RULE = ("seeded random histories (10-40 steps) over an object pool (automata of 
         "online: structure signatures of all pool objects before/after each step; offline: every logged answer vs the "
         "answer of a fresh twin rebuilt from provenance. Non-trivial: history with >=6 answered steps of >=3 kinds; "
         "distinct = (seed, script)."
-        ' Later additions: a feature grammar and an epsilon-chain automaton in the pool, epsilon-edge mutations between queries, runs of repeated contains(); many grammars with repeated symbols in a body, each asked its analyses in a random order.')
+        ' Later additions: a feature grammar and an epsilon-chain automaton in the pool, epsilon-edge mutations between queries, runs of repeated contains(); many grammars with repeated symbols in a body, each asked its analyses in a random order; many one- and two-state automata (an epsilon move next to a symbol) put through their conversions in a random order.')
 ASSUMPTIONS = ["attribute accessors (.states, .productions, .transitions) return live containers by documented design and "
                "are not conversions", "language-valued answers are normalised to bounded word sets (<=3-4 symbols)"]
 TIERS = {
@@ -360,12 +360,24 @@ def rebuild(pool, ref, memo):
 
 # ---------------------------------------------------------------- history driver
 
-def base_pool(rng, cfg4=None):
+def base_pool(rng, cfg4=None, fa0=None):
     pool = []
 
     def add(kind, case):
         pool.append({"origin": ["base", kind, case], "muts": [], "tainted": False})
-    add("fa", gfa.random_case(rng, max_states=3, max_syms=2, vcs=["int", "str"], token=True))
+    f0 = gfa.random_case(rng, max_states=2 if fa0 else 3, max_syms=2, vcs=["int", "str"], token=True)
+    if fa0 == "parallel":
+        # two states, the second one final, an epsilon move next to a symbol between the same two states
+        f0.pop("edits", None)
+        f0.pop("eps_only", None)
+        a_ = rng.randrange(2)
+        tr = [[0, a_, 1], [0, -1, 1]] if rng.random() < 0.7 else [[1, a_, 0], [1, -1, 0], [0, 1 - a_, 1]]
+        for _ in range(rng.randint(0, 2)):
+            t_ = [rng.randrange(2), rng.randrange(2), rng.randrange(2)]
+            if t_ not in tr:
+                tr.append(t_)
+        f0.update(kind="enfa", n=2, k=2, start=[0], final=[1], trans=tr)
+    add("fa", f0)
     add("fa", gfa.random_case(rng, max_states=3, max_syms=2, kinds=("dfa",), vcs=["int"], token=True))
     add("regex", rs.render(rs.gen_ast(rng, 2, escaped=0), rng).replace("cd", "a").replace("x1", "b"))
     add("regex", rs.render(rs.gen_ast(rng, 1, escaped=0), rng).replace("cd", "b").replace("x1", "a"))
@@ -415,7 +427,7 @@ def script_random(rng, pool_kinds_fn, length):
 
 def run_history(c, stats):
     rng = random.Random(c["seed"])
-    pool = base_pool(rng, c.get("cfg4"))
+    pool = base_pool(rng, c.get("cfg4"), c.get("fa0"))
     for e in pool:
         e["obj"] = build_base(e["origin"][1], e["origin"][2])
         e["kind"] = {"fcfg": "cfg"}.get(e["origin"][1], e["origin"][1])      # a feature grammar is queried as a grammar
@@ -699,6 +711,9 @@ def plan(tier, rng, sl, nslices, stats):
         # many feature grammars (one per seed), each asked a run of words with repeats
         seed = rng.randrange(1 << 30)
         yield {"seed": seed, "script": fcfg_scripts(random.Random(seed))}
+    for rep in range(cfg["targeted"] * 40):
+        seed = rng.randrange(1 << 30)
+        yield {"seed": seed, "script": fa_scripts(random.Random(seed)), "fa0": ["tiny", "parallel"][rep % 2]}
     for rep in range(cfg["targeted"] * 60):
         seed = rng.randrange(1 << 30)
         yield {"seed": seed, "script": cfg_scripts(random.Random(seed)), "cfg4": [None, "repeat", "dense", "repeat"][rep % 4]}
@@ -710,6 +725,20 @@ def cfg_scripts(rng):
                 "to_normal_form", "remove_epsilon", "is_finite", "contains", "get_words"]
     rng.shuffle(analyses)
     return [{"target": 4, "op": a, "arg": rng.randrange(6)} for a in analyses + analyses[:4]]
+
+
+def fa_scripts(rng):
+    """many small automata (one per seed), each put through its conversions and operations in a random order, with
+    membership questions in between"""
+    steps = [{"op": "to_regex"}, {"op": "union", "others": [1]}, {"op": "concatenate", "others": [1]}, {"op": "kleene_star"},
+             {"op": "minimize"}, {"op": "to_deterministic"}, {"op": "remove_epsilon_transitions"}, {"op": "get_complement"},
+             {"op": "reverse"}, {"op": "to_fst"}, {"op": "get_intersection", "others": [1]}, {"op": "is_equivalent_to", "others": [1]}]
+    rng.shuffle(steps)
+    out = []
+    for st in steps[:8]:
+        out.append(dict(st, target=0, arg=0))
+        out.append({"target": 0, "op": "accepts", "arg": rng.randrange(14)})
+    return out
 
 
 def fcfg_scripts(rng):
